@@ -242,7 +242,12 @@ def compare_index(ei, gi, ctx=None, cat_strict=True):
         fails.append({"kind": "index_names", "expected": [str(n) for n in ei.names], "got": [str(n) for n in gi.names]})
     for lv in range(ei.nlevels):
         es = pd.Series(ei.get_level_values(lv)).reset_index(drop=True)
-        gs = pd.Series(gi.get_level_values(lv)).reset_index(drop=True)
+        try:
+            gs = pd.Series(gi.get_level_values(lv)).reset_index(drop=True)
+        except Exception as e:
+            # the index object that came back cannot even be walked (codes pointing outside their level)
+            fails.append({"kind": "index_levels", "expected": ei.nlevels, "got": "level %d cannot be materialised: %s" % (lv, type(e).__name__)})
+            continue
         sub = compare_series("<index:%s>" % (ei.names[lv],), es, gs, ctx,
                              check_dtype=False, cat_strict=cat_strict)
         for f in sub:
